@@ -180,6 +180,34 @@ def _rulefile(ctx):
         wild_w = sorted(k.arg for k in call.keywords if any(
             N.txt(s) in ('_ANY', "'*'")
             for val in written(k.value) for s in ast.walk(val)))
+        # a field is written as the wildcard on a test of *that* field only
+        # (the port of a rule whose address is the wildcard is still a
+        # port: the parser decodes every field on its own)
+        rvar = fmt.params()[-1] if fmt.params() else 'rule'
+        for k in call.keywords:
+            if not isinstance(k.value, ast.Name):
+                continue
+            for st in K.walk_no_nested(fmt.node):
+                if not (isinstance(st, ast.Assign) and any(
+                        isinstance(t, ast.Name) and t.id == k.value.id
+                        for t in st.targets)):
+                    continue
+                if not any(N.txt(x) in ('_ANY', "'*'")
+                           for x in ast.walk(st.value)):
+                    continue
+                tests = _enclosing_tests(fmt.node, st)
+                foreign = sorted(set(
+                    m for t in tests if 'isinstance(' not in t
+                    for m in N.mentions(ast.parse(t, mode='eval').body)
+                    if m.startswith(rvar + '.') and
+                    m != '%s.%s' % (rvar, k.arg)))
+                ctx.ob('C15.1', fmt, st, not foreign,
+                       '%s: field %s is written as the wildcard on a test '
+                       'of that field only%s' % (
+                           kind, k.arg, '' if not foreign else
+                           ' - decided by %s' % foreign),
+                       construct='%s wildcard of %s decided by its own '
+                                 'field' % (kind, k.arg))
         # regex
         rname = tname.replace('_PATTERN', '_RE')
         rexpr = mod.consts.get(rname)
